@@ -10,9 +10,13 @@ C11 — property theorems.  "Scripts can reach only the globals the host configu
   end of every path that uses the replaced name, removals never create new paths, and edits
   made through one Config never change what another Config sees when their module objects
   are distinct.
-* The unchanged code violates the statement for dotted names with two or more intermediate
-  modules (`a.b.c.f`): `C11_full_deny` / `C11_full_override` are refuted by a concrete
-  witness, the guard is `deepName`, and the `_partial` theorems hold for every other name.
+* Dotted names of ANY depth (`m.f`, `m.sub.f`, `a.b.c.f`, …): `C11_deny_any_depth` /
+  `C11_override_any_depth` prove the full statements `C11_full_deny` / `C11_full_override` for
+  the code as it is, by induction on the module path (`resolveImpl_eq_spec`).  Before the
+  repair of `resolveModule` in /repo ("fix: resolve a nested module path by descending one
+  module per component", finding C11-nested-module-path) the statements were false for names
+  with two or more intermediate modules: the pre-fix resolver is kept as `preFixResolve` and the
+  refutations as `C11_fixed_nested_deny_was_ignored` / `C11_fixed_nested_override_was_ignored`.
 
 * Host-owned inputs (section 9): the host's Go maps are heap objects with identity that several
   option sequences may name; for the code as it is (`WithGlobals` copies) no option sequence and no
@@ -192,11 +196,45 @@ theorem denySpec_member_unreachable (st : St) (mname : Name) (attr : List Name) 
   exact overrideMod_none_unreachable st tm last t tbl hname htab (by simp [hget]) hroot hsole
 
 /-- The full statement for the code as it is (`denyParts` uses `resolveImpl`, the loop of
-    `resolveModule` in risor_config.go). -/
+    `resolveModule` in risor_config.go): for EVERY state and EVERY dotted name — any number of
+    intermediate modules — that names an object registered only there, no path of any length
+    reaches the object after the denial. -/
 def C11_full_deny : Prop :=
   ∀ (st : St) (mname : Name) (attr : List Name) (tm : Id) (last : Name) (t : Id),
     MemberSite st mname attr tm last t →
     t ∉ reach (graphOf (denyParts st (mname :: attr))) [root]
+
+/-- The code as it is applies a denylist entry exactly as the property demands: for every
+    state and every name (dotted or not, of any depth, resolvable or not) `denyParts` and
+    `denySpec` give the same state. -/
+theorem denyParts_eq_spec (st : St) (parts : List Name) : denyParts st parts = denySpec st parts := by
+  have h : resolveImpl = resolveSpec := by
+    funext st m mp; exact resolveImpl_eq_spec st m mp
+  unfold denyParts denySpec
+  rw [h]
+
+/-- **Denied module member, names of any depth.** For the code as it is, every state and every
+    dotted name `mname.mp….last` — with zero, one, two or any number of intermediate modules
+    `mp` — that names an object registered only there: after `WithoutGlobal` of that name no
+    path of any length reaches the object.  (Until the repair of `resolveModule` this carried
+    the guard `deepName = false`.) -/
+theorem C11_deny_any_depth (st : St) (mname : Name) (attr : List Name) (tm : Id) (last : Name)
+    (t : Id) (h : MemberSite st mname attr tm last t) :
+    t ∉ reach (graphOf (denyParts st (mname :: attr))) [root] := by
+  rw [denyParts_eq_spec]
+  exact denySpec_member_unreachable st mname attr tm last t h
+
+/-- the full statement holds -/
+theorem C11_full_deny_holds : C11_full_deny := C11_deny_any_depth
+
+/-! ### the repaired defect (C11-nested-module-path), kept as checked statements -/
+
+/-- HISTORICAL: the full deny statement for the code as it WAS (`preFixDenyParts` uses
+    `preFixResolve`: every path component looked up in the root module). -/
+def C11_preFix_full_deny : Prop :=
+  ∀ (st : St) (mname : Name) (attr : List Name) (tm : Id) (last : Name) (t : Id),
+    MemberSite st mname attr tm last t →
+    t ∉ reach (graphOf (preFixDenyParts st (mname :: attr))) [root]
 
 /-- host module `a{ b{ c{ f } } }`: a = 1, b = 2, c = 3, f = 4 -/
 def nestedWitness : St :=
@@ -204,34 +242,42 @@ def nestedWitness : St :=
     mods := [(1, [([98], 2)]), (2, [([99], 3)]), (3, [([102], 4)])],
     back := [(4, 3)] }
 
-/-- **Counterexample (known finding C11-nested-module-path).** With host module
-    `a{b{c{f}}}`, `WithoutGlobal("a.b.c.f")` leaves `f` reachable: `resolveModule(a, [b, c])`
-    looks `c` up in `a`, fails, and the denial is dropped. -/
-theorem C11_counterexample_nested_deny : ¬ C11_full_deny := by
-  intro h
-  have hs : MemberSite nestedWitness [97] [[98], [99], [102]] 3 [102] 4 :=
-    ⟨1, [[98], [99]], [([102], 4)], by decide, by decide, by decide, by decide, by decide,
-      by decide, by decide, by decide, by unfold SoleMember; decide⟩
-  exact h nestedWitness [97] [[98], [99], [102]] 3 [102] 4 hs (by decide)
+theorem nestedWitness_site : MemberSite nestedWitness [97] [[98], [99], [102]] 3 [102] 4 :=
+  ⟨1, [[98], [99]], [([102], 4)], by decide, by decide, by decide, by decide, by decide,
+    by decide, by decide, by decide, by unfold SoleMember; decide⟩
 
-/-- **Partial theorem under the guard** `deepName = false` (at most one intermediate module:
-    `m.a` and `m.sub.a`): the code as it is makes the denied member unreachable by every
-    path, for every state. -/
-theorem C11_partial_deny (st : St) (mname : Name) (attr : List Name) (tm : Id) (last : Name)
+/-- **BEFORE the repair (finding C11-nested-module-path).** With host module `a{b{c{f}}}`,
+    `WithoutGlobal("a.b.c.f")` left `f` reachable: `resolveModule(a, [b, c])` looked `c` up in
+    `a`, failed, and the denial was dropped. -/
+theorem C11_fixed_nested_deny_was_ignored : ¬ C11_preFix_full_deny := by
+  intro h
+  exact h nestedWitness [97] [[98], [99], [102]] 3 [102] 4 nestedWitness_site (by decide)
+
+/-- … and the SAME witness under the code as it is: `f` is reachable before the denial and by
+    no path afterwards. -/
+theorem C11_fixed_nested_deny_now_applies :
+    reachable (graphOf nestedWitness) [root] 4 = true ∧
+    reachable (graphOf (preFixDenyParts nestedWitness [[97], [98], [99], [102]])) [root] 4 = true ∧
+    reachable (graphOf (denyParts nestedWitness [[97], [98], [99], [102]])) [root] 4 = false := by
+  decide
+
+/-- HISTORICAL: what did hold before the repair — the statement under the guard
+    `deepName = false` (at most one intermediate module: `m.a` and `m.sub.a`). -/
+theorem C11_fixed_preFix_shallow_deny (st : St) (mname : Name) (attr : List Name) (tm : Id) (last : Name)
     (t : Id) (hguard : deepName (mname :: attr) = false)
     (h : MemberSite st mname attr tm last t) :
-    t ∉ reach (graphOf (denyParts st (mname :: attr))) [root] := by
+    t ∉ reach (graphOf (preFixDenyParts st (mname :: attr))) [root] := by
   obtain ⟨m, mp, tbl, hg, hmod, hsplit, hres, htab, hget, hname, hroot, hsole⟩ := h
   have hlen := splitLast_length hsplit
   have hshort : mp.length ≤ 1 := by
     simp only [deepName, List.length_cons, decide_eq_false_iff_not, Nat.not_le] at hguard
     omega
-  have : denyParts st (mname :: attr) = denySpec st (mname :: attr) := by
-    unfold denyParts denySpec
+  have : preFixDenyParts st (mname :: attr) = denySpec st (mname :: attr) := by
+    unfold preFixDenyParts denySpec
     rw [denyWith_cons _ _ _ _ (splitLast_ne_nil hsplit), denyWith_cons _ _ _ _ (splitLast_ne_nil hsplit),
       editMember_eq resolveSpec st mname attr none m tm mp last hg hmod hsplit hres,
-      editMember_eq resolveImpl st mname attr none m tm mp last hg hmod hsplit
-        (by rw [resolveImpl_short st m mp hshort]; exact hres)]
+      editMember_eq preFixResolve st mname attr none m tm mp last hg hmod hsplit
+        (by rw [preFixResolve_short st m mp hshort]; exact hres)]
   rw [this]
   exact denySpec_member_unreachable st mname attr tm last t
     ⟨m, mp, tbl, hg, hmod, hsplit, hres, htab, hget, hname, hroot, hsole⟩
@@ -312,41 +358,84 @@ theorem overrideSpec_member (st : St) (mname : Name) (attr : List Name) (tm : Id
     · exact Or.inr (fun hx => htv (hx.symm.trans h1.2))
     · exact Or.inl h1
 
-/-- The full override statement for the code as it is. -/
+/-- The full override statement for the code as it is: for EVERY state and EVERY dotted name of
+    any depth, every edge labelled `last` out of the named module ends in the replacement, and
+    the object that was registered there is unreachable by every path (if it was registered
+    only there and is not the replacement itself). -/
 def C11_full_override : Prop :=
   ∀ (st : St) (mname : Name) (attr : List Name) (tm : Id) (last : Name) (t v : Id),
     MemberSite st mname attr tm last t →
-    ∀ e ∈ graphOf (overrideParts st (mname :: attr) v), e.src = tm → e.lbl = .attr last → e.dst = v
+    (∀ e ∈ graphOf (overrideParts st (mname :: attr) v), e.src = tm → e.lbl = .attr last → e.dst = v) ∧
+    (t ≠ v → t ∉ reach (graphOf (overrideParts st (mname :: attr) v)) [root])
 
-/-- **Counterexample.** `WithGlobalOverride("a.b.c.f", v)` on host module `a{b{c{f}}}` is
-    dropped: the script still observes the original `f` (4), not `v` (9). -/
-theorem C11_counterexample_nested_override : ¬ C11_full_override := by
+/-- The code as it is applies an overrides entry exactly as the property demands, for every
+    state, name (of any depth) and value. -/
+theorem overrideParts_eq_spec (st : St) (parts : List Name) (v : Id) :
+    overrideParts st parts v = overrideSpec st parts v := by
+  have h : resolveImpl = resolveSpec := by
+    funext st m mp; exact resolveImpl_eq_spec st m mp
+  unfold overrideParts overrideSpec
+  rw [h]
+
+/-- **Overridden module member, names of any depth**: for the code as it is.  (Until the
+    repair of `resolveModule` this carried the guard `deepName = false`.) -/
+theorem C11_override_any_depth (st : St) (mname : Name) (attr : List Name) (tm : Id) (last : Name)
+    (t v : Id) (h : MemberSite st mname attr tm last t) :
+    (∀ e ∈ graphOf (overrideParts st (mname :: attr) v), e.src = tm → e.lbl = .attr last → e.dst = v) ∧
+    (t ≠ v → t ∉ reach (graphOf (overrideParts st (mname :: attr) v)) [root]) := by
+  rw [overrideParts_eq_spec]
+  exact overrideSpec_member st mname attr tm last t v h
+
+/-- the full statement holds -/
+theorem C11_full_override_holds : C11_full_override := C11_override_any_depth
+
+/-- The whole of `Config.init` (any denylist, any overrides, in any order given) on the code as
+    it is equals what the property demands. -/
+theorem initCfg_eq_spec (st : St) (denies : List (List Name)) (ovs : List (List Name × Id)) :
+    initCfg st denies ovs = initSpec st denies ovs := by
+  have hd : denyParts = denySpec := by funext s p; exact denyParts_eq_spec s p
+  have ho : overrideParts = overrideSpec := by funext s p v; exact overrideParts_eq_spec s p v
+  unfold initCfg initSpec
+  rw [hd, ho]
+
+/-- HISTORICAL: the override statement (first half) for the code as it WAS. -/
+def C11_preFix_full_override : Prop :=
+  ∀ (st : St) (mname : Name) (attr : List Name) (tm : Id) (last : Name) (t v : Id),
+    MemberSite st mname attr tm last t →
+    ∀ e ∈ graphOf (preFixOverrideParts st (mname :: attr) v), e.src = tm → e.lbl = .attr last → e.dst = v
+
+/-- **BEFORE the repair.** `WithGlobalOverride("a.b.c.f", v)` on host module `a{b{c{f}}}` was
+    dropped: the script still observed the original `f` (4), not `v` (9). -/
+theorem C11_fixed_nested_override_was_ignored : ¬ C11_preFix_full_override := by
   intro h
-  have hs : MemberSite nestedWitness [97] [[98], [99], [102]] 3 [102] 4 :=
-    ⟨1, [[98], [99]], [([102], 4)], by decide, by decide, by decide, by decide, by decide,
-      by decide, by decide, by decide, by unfold SoleMember; decide⟩
-  have := h nestedWitness [97] [[98], [99], [102]] 3 [102] 4 9 hs ⟨3, .attr [102], 4⟩
+  have := h nestedWitness [97] [[98], [99], [102]] 3 [102] 4 9 nestedWitness_site ⟨3, .attr [102], 4⟩
     (by decide) rfl rfl
   exact absurd this (by decide)
 
-/-- **Partial override theorem under the guard** `deepName = false`: for the code as it is. -/
-theorem C11_partial_override (st : St) (mname : Name) (attr : List Name) (tm : Id) (last : Name)
+/-- … and the same witness under the code as it is: the script observes `v` (9). -/
+theorem C11_fixed_nested_override_now_applies :
+    access (preFixOverrideParts nestedWitness [[97], [98], [99], [102]] 9) false [97] [[98], [99], [102]] = some 4 ∧
+    access (overrideParts nestedWitness [[97], [98], [99], [102]] 9) false [97] [[98], [99], [102]] = some 9 := by
+  decide
+
+/-- HISTORICAL: the override theorem that held before the repair, under `deepName = false`. -/
+theorem C11_fixed_preFix_shallow_override (st : St) (mname : Name) (attr : List Name) (tm : Id) (last : Name)
     (t v : Id) (hguard : deepName (mname :: attr) = false)
     (h : MemberSite st mname attr tm last t) :
-    (∀ e ∈ graphOf (overrideParts st (mname :: attr) v), e.src = tm → e.lbl = .attr last → e.dst = v) ∧
-    (t ≠ v → t ∉ reach (graphOf (overrideParts st (mname :: attr) v)) [root]) := by
+    (∀ e ∈ graphOf (preFixOverrideParts st (mname :: attr) v), e.src = tm → e.lbl = .attr last → e.dst = v) ∧
+    (t ≠ v → t ∉ reach (graphOf (preFixOverrideParts st (mname :: attr) v)) [root]) := by
   have h' := h
   obtain ⟨m, mp, tbl, hg, hmod, hsplit, hres, htab, hget, hname, hroot, hsole⟩ := h
   have hlen := splitLast_length hsplit
   have hshort : mp.length ≤ 1 := by
     simp only [deepName, List.length_cons, decide_eq_false_iff_not, Nat.not_le] at hguard
     omega
-  have : overrideParts st (mname :: attr) v = overrideSpec st (mname :: attr) v := by
-    unfold overrideParts overrideSpec
+  have : preFixOverrideParts st (mname :: attr) v = overrideSpec st (mname :: attr) v := by
+    unfold preFixOverrideParts overrideSpec
     rw [overrideWith_cons _ _ _ _ _ (splitLast_ne_nil hsplit), overrideWith_cons _ _ _ _ _ (splitLast_ne_nil hsplit),
       editMember_eq resolveSpec st mname attr (some v) m tm mp last hg hmod hsplit hres,
-      editMember_eq resolveImpl st mname attr (some v) m tm mp last hg hmod hsplit
-        (by rw [resolveImpl_short st m mp hshort]; exact hres)]
+      editMember_eq preFixResolve st mname attr (some v) m tm mp last hg hmod hsplit
+        (by rw [preFixResolve_short st m mp hshort]; exact hres)]
   rw [this]
   exact overrideSpec_member st mname attr tm last t v h'
 
@@ -396,7 +485,8 @@ theorem access_congr (st st' : St) (S : Id → Prop)
     · cases hy
     · cases hy; exact hx
 
-/-- the module a dotted entry edits is one the configuration itself can reach -/
+/-- the module a dotted entry edits is one the configuration itself can reach (by the global
+    `mname`, then one member edge per path component) -/
 theorem resolveImpl_reachable (st : St) (mname : Name) (m : Id) (mp : List Name) (tm : Id)
     (hm : tget st.globals mname = some m) (hres : resolveImpl st m mp = some tm) :
     tm ∈ reach (graphOf st) [root] := by
@@ -404,16 +494,9 @@ theorem resolveImpl_reachable (st : St) (mname : Name) (m : Id) (mp : List Name)
   refine ⟨root, by simp, ?_⟩
   have e0 : ∃ e ∈ graphOf st, e.src = root ∧ e.dst = m :=
     ⟨⟨root, .ident mname, m⟩, ident_edge_mem (tget_mem hm), rfl, rfl⟩
-  cases mp with
-  | nil =>
-    simp only [resolveImpl, Option.some.injEq] at hres
-    subst hres
-    exact ⟨[m], e0, rfl⟩
-  | cons n ns =>
-    simp only [resolveImpl] at hres
-    rcases resolveLoop_some st m (n :: ns) none tm hres with h | ⟨k, hk⟩
-    · cases h
-    · exact ⟨[m, tm], e0, memberModule_edge st m k tm hk, rfl⟩
+  rw [resolveImpl_eq_spec] at hres
+  obtain ⟨p, hp⟩ := resolveSpec_path st m mp tm hres
+  exact ⟨m :: p, e0, hp⟩
 
 /-- **Frame.** An edit made through a configuration changes the attribute table of no
     object, except possibly one module that this configuration can itself reach. -/
@@ -527,10 +610,13 @@ def sampleState : St :=
     mods := [(1, [([101], 2), ([103], 3)])],
     back := [(2, 1), (3, 1), (4, 9)] }
 
-/-- `MemberSite` and the guard are satisfiable: `os.e` in the sample state. -/
+/-- `MemberSite` is satisfiable by a shallow name (`os.e` in the sample state) and by a deep one
+    (`a.b.c.f` in `nestedWitness`, `deepName = true`). -/
 example : MemberSite sampleState [111, 115] [[101]] 1 [101] 2 ∧ deepName [[111, 115], [101]] = false :=
   ⟨⟨1, [], [([101], 2), ([103], 3)], by decide, by decide, by decide, by decide, by decide,
     by decide, by decide, by decide, by unfold SoleMember; decide⟩, by decide⟩
+example : MemberSite nestedWitness [97] [[98], [99], [102]] 3 [102] 4 ∧
+    deepName [[97], [98], [99], [102]] = true := ⟨nestedWitness_site, by decide⟩
 
 /-- … and the theorem's conclusion is not trivial: the member IS reachable before the deny
     (directly and through its sibling's `__module__`), and is not afterwards. -/
